@@ -89,11 +89,13 @@ register("C01", "other",
 register("C05", "proof",
          "Lean theorems about the declarative label semantics PV.Labels: a label stands for the index of the instruction that follows it (labelIndex_correct), every such index exists (labelIndex_le), label removal "
          "is line for line the instruction list with label operands replaced by those indices and all other tokens untouched (specRemove_eq_map, substTok_label, substTok_other, substInstr_head), unrelated label "
-         "lines do not move any target (labelIndex_erase_other) — for all programs. Tie to the code: on every run the REAL output with remove_labels=True is compared line for line with specRemove of the REAL "
+         "lines do not move any target (labelIndex_erase_other) — for all programs. Machine level: label_removal_preserves_traces (stuttering bisimulation strip_sim_fwd / strip_sim_bwd) — a program of direct "
+         "control flow and the program with its label lines deleted and jump targets renumbered have the same effect traces for every environment, start state and number of steps; per real output pair the "
+         "harness checks that the label-free output is exactly that strip of the labelled one (strip-compare; pairs with jal / relative branches are outside the theorem and counted separately). Tie to the code: on every run the REAL output with remove_labels=True is compared line for line with specRemove of the REAL "
          "output with labels kept (other options equal, random) for shipped, generated (core/funcs/calls/loop-control) and identifier-adversarial programs; labels defined once; every jump operand resolves in "
          "both outputs (loader model); behaviour under both settings is compared with the reference semantics. Name collisions after mangling are known findings F-C05-a/b/c (witnesses).",
          TB + "specRemove is a hand-written specification; the regex substitution inside remove_labels is covered by output comparison, not by a theorem about the regex engine.",
-         "Lean 4 proof (list induction) about the label semantics + comparison of real output pairs against it", "DESIGN.md §4 C05")
+         "Lean 4 proofs (list induction about the label semantics; stuttering bisimulation for label removal at machine level) + comparison of real output pairs against both", "DESIGN.md §4 C05")
 
 register("C04", "proof",
          "Two layers of Lean theorems. (1) Allocator model PV.RegAlloc (replica of register_assignment.py): colors_proper — symbols whose line intervals overlap get different colours, for every interval list; "
